@@ -1,7 +1,7 @@
 """C07 — Coroutine lifecycle follows the documented state machine (exhaustive finite table)."""
 from analysis.facts import norm
 from analysis.flow import DefUse, find_calls, callee_ends, op_local
-from analysis.table import PathWalker, describe_val
+from analysis.table import PathWalker, describe_val, is_eq_call
 from analysis.cfg import Cfg
 from rules.common import start, need
 
@@ -106,7 +106,7 @@ def interpret(conds):
                 else:
                     c["due"] = (due == val)
                     c["variants"] &= {"Suspend"}
-            elif d[0] == "call" and d[1] == "<%s as std::cmp::PartialEq>::eq" % ST:
+            elif is_eq_call(d) and find_agg(d[2], ST):
                 ag = find_agg(d[2], ST)
                 if ag and contains(d[2], "Coroutine::state"):
                     if val:
@@ -115,7 +115,7 @@ def interpret(conds):
                         c["variants"] -= {ag[2]}
                 else:
                     unknown.append(cd)
-            elif d[0] == "call" and d[1] == "<common::constants::SyscallName as std::cmp::PartialEq>::eq":
+            elif is_eq_call(d) and (d[1].startswith("<common::constants::SyscallName as ") or any(contains(x, "@Syscall.1") for x in d[2])):
                 args = d[2]
                 stored = any(contains(x, "@Syscall.1") for x in args)
                 req = any(contains(x, "syscall") and contains(x, "param") for x in args)
